@@ -152,6 +152,96 @@ class JEnv:
         return [JView(snap) for (kind, *rest) in self.db.log if kind == "commit" for snap in rest]
 
 
+class CSess:
+    """Concrete stand-in of a FIXSession object (native observation) with the engine Obj's field access."""
+
+    def __init__(self, d):
+        self.f = {"key": d["key"], "target_comp_id": d["target"], "sender_comp_id": d["sender"],
+                  "next_num_out": d["nout"], "next_num_in": d["nin"]}
+
+
+def is_session(v):
+    return hasattr(v, "f") and isinstance(v.f, dict) and "next_num_out" in v.f and "key" in v.f
+
+
+class CView:
+    """JView over a concrete table dump of the native runner."""
+
+    def __init__(self, dump):
+        self.S = {r[0]: r for r in dump["session"]}
+        self.M = {(r[0], r[1], r[2]): r[3] for r in dump["message"]}
+
+    def has_msg(self, k, s, d):
+        return (k, s, d) in self.M
+
+    def msg(self, k, s, d):
+        return self.M.get((k, s, d))
+
+    def has_sess(self, i):
+        return i in self.S
+
+    def target(self, i):
+        return self.S[i][1] if i in self.S else None
+
+    def sender(self, i):
+        return self.S[i][2] if i in self.S else None
+
+    def out(self, i):
+        return self.S[i][3] if i in self.S else 0
+
+    def inn(self, i):
+        return self.S[i][4] if i in self.S else 0
+
+
+class CEnv:
+    """Concrete counterpart of JEnv for evaluating the same clause functions on a native observation."""
+
+    def __init__(self, pre_dump, post_dump, durable_dump=None, probes_m=(), probes_s=()):
+        self.pre = CView(pre_dump)
+        self._post = CView(post_dump)
+        self._dur = CView(durable_dump) if durable_dump is not None else None
+        keys_m = set(self.pre.M) | set(self._post.M) | {tuple(p) for p in probes_m}
+        keys_s = set(self.pre.S) | set(self._post.S) | set(probes_s)
+        if self._dur is not None:
+            keys_m |= set(self._dur.M)
+            keys_s |= set(self._dur.S)
+        self._pm = sorted(keys_m)
+        self._ps = sorted(keys_s)
+
+    def post(self):
+        return self._post
+
+    def durable(self):
+        return self._dur
+
+    def msg_probes(self):
+        return list(self._pm)
+
+    def sess_probes(self):
+        return list(self._ps)
+
+    def unchanged(self, a, b, prefix):
+        cl = []
+        for (k, s, d) in self.msg_probes():
+            cl.append((prefix + ".messages", same_msg_at(a, b, k, s, d)))
+        for i in self.sess_probes():
+            cl.append((prefix + ".sessions", same_sess_at(a, b, i)))
+        return cl
+
+    def committed(self, prefix="c08.clean_at_exit"):
+        if self._dur is None:
+            return []
+        return self.unchanged(self._post, self._dur, prefix)
+
+    def wf(self, prefix=""):
+        post = self._post
+        ok = len({(r[1], r[2]) for r in post.S.values()}) == len(post.S)
+        return [(prefix + "wf.unique[session]", ok)]
+
+    def commit_points(self):
+        return []
+
+
 def outcome_note(I, out):
     I.ctx.notes.append(("outcome", out[0] if out[0] == "ret" else "raise:" + out[1].name()))
 
